@@ -226,6 +226,8 @@ pub struct BatchOut {
     pub first_seed: u64,
     pub last_seed: u64,
     pub sched_mix: BTreeMap<String, u64>,
+    pub fault_points: HashSet<u64>,
+    pub fault_bases: BTreeMap<u64, u64>,
 }
 
 pub fn run_batch(cfg: &BatchCfg, known: &[KnownFinding]) -> BatchOut {
@@ -314,6 +316,10 @@ pub fn run_batch(cfg: &BatchCfg, known: &[KnownFinding]) -> BatchOut {
                     *o.faults.entry(k.to_string()).or_insert(0) += v;
                 }
                 o.schedules.insert(st.schedule_hash);
+                if let Some((point, base, space)) = st.fault_point {
+                    o.fault_points.insert(point);
+                    o.fault_bases.insert(base, space);
+                }
                 if let Some(s) = res.plan.get("sched").and_then(|s| s.as_str()) {
                     *o.sched_mix.entry(s.to_string()).or_insert(0) += 1;
                 }
